@@ -28,6 +28,9 @@ SKEYS = ("S9", "E0", "E1", "S15", "E255")
 RKINDS = ("cb", "wr", "wn")       # set_exit_callback / wait_for_exit(True) / wait_for_exit(False)
 
 
+STALE = "recycled-pid:re-registration-of-reaped-Subprocess"
+
+
 class HarnessError(Exception):
     pass
 
@@ -142,6 +145,13 @@ class Reg:
         self.fut = None
 
 
+def fired(r):
+    """How often registration r has been answered so far (non-destructive)."""
+    if r.kind == "cb":
+        return len(r.calls)
+    return int(r.fut.done()) if r.fut is not None else 0
+
+
 class Child:
     __slots__ = ("i", "skey", "status", "code", "p", "pid", "exited", "t_exit", "regs")
 
@@ -207,9 +217,10 @@ def run_case(proc, case, chooser, trace=None):
             trace.append(x)
 
     def flag(sig, msg):
-        if "\0" in sig:
-            sig = sig.split("\0")[0]          # collapsed signature
-        sig = sig.lstrip(":").replace("::", ":")
+        if sig.startswith(STALE):
+            rest = sig[len(STALE):]
+            sig = STALE if rest.startswith((":never-reported", ":wrong-status")) else rest
+        sig = sig.lstrip(":")
         if not any(b[0] == sig for b in bad):
             bad.append((sig, msg + "  [events: %s]" % " ".join(events)))
 
@@ -240,22 +251,20 @@ def run_case(proc, case, chooser, trace=None):
                 return "reg-after-exit" if r.after_exit else "exit-after-reg"
 
             def where_of(c, r):
-                """Structural prefix of a signature (one defect = one signature)."""
+                """One defect = one signature: when a pid was recycled between two
+                Subprocess objects and one of them registered a second time, a
+                missing / wrong report is the stale-registration defect."""
                 same = [d for d in children if d.pid == c.pid]
                 if len(same) > 1 and any(len(d.regs) > 1 for d in same):
-                    # another Subprocess had this pid and one of them registered again
-                    return "recycled-pid:re-registration-of-reaped-Subprocess" + "\0"
-                w_ = "rereg" if len(c.regs) > 1 else ""
-                if len(same) > 1:
-                    w_ = "recycled-pid:" + w_
-                return w_
+                    return STALE
+                return ""
 
             def check_quiescent(final):
                 for c in children:
                     for ri, r in enumerate(c.regs):
                         single = len(c.regs) == 1
                         where = where_of(c, r)
-                        n = len(r.calls) if r.kind == "cb" else int(r.fut.done())
+                        n = fired(r)
                         if r.kind == "cb":
                             if n > 1:
                                 flag(where + ":called-%d-times" % n,
@@ -292,8 +301,7 @@ def run_case(proc, case, chooser, trace=None):
                 if not trace_on:
                     del kernel.log[:]
                 states.append((tuple((c.p is not None, c.exited, len(c.regs),
-                                      tuple(len(r.calls) if r.kind == "cb" else int(r.fut.done())
-                                            for r in c.regs)) for c in children),
+                                      tuple(fired(r) for r in c.regs)) for c in children),
                                st["pending"], SIGCHLD in loop.signal_handlers,
                                tuple(sorted(Sub._waiting))))
 
@@ -350,7 +358,7 @@ def run_case(proc, case, chooser, trace=None):
                     say("  loop quiescent: " + "; ".join(
                         "child %d %s" % (c.i, ",".join(
                             "%s=%s" % (r.kind, r.calls if r.kind == "cb" else
-                                       ("done" if r.fut.done() else "pending")) for r in c.regs)
+                                       ("done" if fired(r) else "pending")) for r in c.regs)
                             or "unregistered") for c in children))
                 check_quiescent(final)
 
@@ -403,6 +411,9 @@ def run_case(proc, case, chooser, trace=None):
                         outcome.append((c.skey, r.kind, tuple(r.calls)))
                         continue
                     f = r.fut
+                    if f is None:
+                        outcome.append((c.skey, r.kind, "registration-raised"))
+                        continue
                     if not f.done():
                         outcome.append((c.skey, r.kind, "pending"))
                         continue
@@ -438,9 +449,8 @@ def run_case(proc, case, chooser, trace=None):
             if rereg:
                 for c in children:
                     if len(c.regs) == 2 and c.exited:
-                        fired = tuple((len(r.calls) if r.kind == "cb" else int(r.fut.done()))
-                                      for r in c.regs)
-                        rereg_notes.append("either:re-registration:fired(first,second)=%r" % (fired,))
+                        rereg_notes.append("either:re-registration:fired(first,second)=%r"
+                                           % (tuple(fired(r) for r in c.regs),))
                         if c.pid in Sub._waiting:
                             rereg_notes.append("either:re-registration:reaped-pid-left-in-_waiting")
             nontriv = any(c.exited and c.regs for c in children)
@@ -470,8 +480,9 @@ class C42(Check):
             "EITHER class, oracle-free invariants only]} and, deviation-bounded, whether the loop "
             "runs between two events; plus all exit codes 0..255 and signals 1..64 (+core flag) "
             "through the two basic schedules; the expected report (exactly once, decoded status, "
-            "CalledProcessError) is checked at every quiescent point; non-trivial = schedules in "
-            "which >=1 child both exited and was registered")
+            "CalledProcessError) is checked at every quiescent point; non-trivial = distinct event "
+            "schedules (statuses / registration kinds ignored) in which >=1 child both exited and "
+            "was registered")
     claim = ("Within the bound every registered child's exit is reported exactly once with "
              "returncode = exit status or -signal, as soon as the registration follows the exit or "
              "a SIGCHLD follows both; never before the exit; wait_for_exit raises "
@@ -535,7 +546,11 @@ class C42(Check):
             if case.get("split"):
                 def run(ch, case=case):
                     return run_case(proc, case, DevexChooser(ch))
-                for prefix in devex.first_level(run, depth=2 * case["split"]):
+                try:
+                    prefixes = devex.first_level(run, depth=2 * case["split"])
+                except Exception:
+                    prefixes = [()]        # let the worker hit (and report) the problem
+                for prefix in prefixes:
                     # odd positions are the bounded "loop does not run" choices
                     if case["bound"] is not None and sum(1 for c in prefix[1::2] if c) > case["bound"]:
                         continue
@@ -577,8 +592,11 @@ class C42(Check):
             seen.add(ok)
             st.outcome(ok)
         if obs["nontriv"]:
-            nk = (tuple(case["children"]), tuple(obs["events"]))
-            st.nontriv(nk)
+            nk = (len(case["children"]), bool(case.get("late")), bool(case.get("rereg")),
+                  tuple(obs["events"]))        # distinct schedules (statuses / kinds ignored)
+            if nk not in seen:
+                seen.add(nk)
+                st.nontriv(nk)
             if len(st.samples) < 1 and len(obs["events"]) >= 6:
                 st.sample({"children": case["children"], "events": " ".join(obs["events"]),
                            "reports": [list(map(str, o)) for o in ok]})
